@@ -277,6 +277,28 @@ func (c *ctx) session5Facts() {
 	c.lean.WriteString("/-- `WriteDedupQueue.GetChunk`: the locked look at the write queue, the wait, the fall-through -/\n")
 	c.emitShape("shape_wdq_GetChunk", "wdqGetChunkShape", rs, fd != nil)
 
+	// which request queues each de-duplicating method touches
+	for _, d := range []struct{ recv, fn, name string }{
+		{"DedupQueue", "GetChunk", "dedupQueuesOfGetChunk"}, {"DedupQueue", "HasChunk", "dedupQueuesOfHasChunk"},
+		{"WriteDedupQueue", "StoreChunk", "dedupQueuesOfStoreChunk"}, {"WriteDedupQueue", "GetChunk", "dedupQueuesOfWriteGetChunk"},
+		{"WriteDedupQueue", "HasChunk", "dedupQueuesOfWriteHasChunk"},
+	} {
+		fd := c.funcDecl(c.files, d.recv, d.fn)
+		seen := map[string]bool{}
+		var qs []string
+		if fd != nil {
+			walk(fd.Body, func(n ast.Node) bool {
+				if sel, ok := n.(*ast.SelectorExpr); ok && strings.HasSuffix(sel.Sel.Name, "Queue") && !seen[sel.Sel.Name] {
+					seen[sel.Sel.Name] = true
+					qs = append(qs, sel.Sel.Name)
+				}
+				return true
+			})
+		}
+		fmt.Fprintf(&c.lean, "/-- `%s.%s`: the request queues it touches (each kind of request has its own) -/\n", d.recv, d.fn)
+		c.emitShape("shape_"+d.name, d.name, qs, fd != nil)
+	}
+
 	c.lean.WriteString("\n/-! sequential loops polling their context (C07) -/\n")
 	fd = c.funcDecl(c.files, "", "UnTar")
 	un := "no-loop"
@@ -338,6 +360,8 @@ func (c *ctx) session5Facts() {
 	c.untarIndexAssembler()
 
 	c.cmdExtractTail()
+	c.cmdDelegates()
+	c.cmdServers()
 
 	c.lean.WriteString("\n/-! cmd/desync/prune.go (C16): the keep-set -/\n")
 	fd = c.funcDecl(c.cmd, "", "runPrune")
@@ -519,4 +543,80 @@ func (c *ctx) cmdExtractTail() {
 	}
 	c.lean.WriteString("\n/-! cmd/desync/extract.go (C01): the assembly's error is returned before anything else is done -/\n")
 	c.emitShape("shape_cmd_extract_tail", "cmdExtractTail", tail, found)
+}
+
+// cmdDelegates: command functions that must hand their work to a library entry point whatever their arguments
+// are: every `return nil` that precedes the call, and the worker-count argument of the call, are recorded
+func (c *ctx) cmdDelegates() {
+	c.lean.WriteString("\n/-! cmd/desync: commands that delegate to a library function (no early success) -/\n")
+	for _, d := range []struct{ fn, callee, name string }{
+		{"runVerifyIndex", "desync.VerifyIndex", "cmdVerifyIndexShape"},
+		{"runVerify", ".Verify", "cmdVerifyShape"},
+	} {
+		fd := c.funcDecl(c.cmd, "", d.fn)
+		var sh []string
+		found := false
+		if fd != nil {
+			var callPos token.Pos
+			walk(fd.Body, func(n ast.Node) bool {
+				if call, ok := n.(*ast.CallExpr); ok && strings.HasSuffix(exprString(call.Fun), d.callee) && callPos == 0 {
+					callPos = call.Pos()
+					found = true
+					args := []string{}
+					for _, a := range call.Args {
+						args = append(args, exprString(a))
+					}
+					sh = append(sh, "call("+strings.Join(args, ",")+")")
+				}
+				return true
+			})
+			walk(fd.Body, func(n ast.Node) bool {
+				if r, ok := n.(*ast.ReturnStmt); ok && callPos != 0 && r.Pos() < callPos && len(r.Results) == 1 && exprString(r.Results[0]) == "nil" {
+					sh = append([]string{"early-return-nil"}, sh...)
+				}
+				return true
+			})
+		}
+		c.emitShape("shape_"+d.name, d.name, sh, found)
+	}
+}
+
+// cmdServers: how `desync chunk-server` / `index-server` configure their handler: where the authorization value
+// comes from and which options reach the handler's constructor
+func (c *ctx) cmdServers() {
+	c.lean.WriteString("\n/-! cmd/desync chunk-server / index-server (C15): option plumbing -/\n")
+	for _, d := range []struct{ fn, ctor, name string }{
+		{"runChunkServer", "desync.NewHTTPHandler", "cmdChunkServerPlumbing"},
+		{"runIndexServer", "desync.NewHTTPIndexHandler", "cmdIndexServerPlumbing"},
+	} {
+		fd := c.funcDecl(c.cmd, "", d.fn)
+		var sh []string
+		found := false
+		if fd != nil {
+			walk(fd.Body, func(n ast.Node) bool {
+				switch t := n.(type) {
+				case *ast.IfStmt:
+					// if opt.auth == "" { opt.auth = os.Getenv("DESYNC_HTTP_AUTH") }
+					if exprString(t.Cond) == `opt.auth==""` {
+						for _, b := range t.Body.List {
+							if as, ok := b.(*ast.AssignStmt); ok && len(as.Lhs) == 1 && len(as.Rhs) == 1 {
+								sh = append(sh, "env-fallback:"+exprString(as.Lhs[0])+"="+exprString(as.Rhs[0]))
+							}
+						}
+					}
+				case *ast.CallExpr:
+					if exprString(t.Fun) == d.ctor {
+						found = true
+						args := []string{}
+						for _, a := range t.Args[1:] {
+							args = append(args, exprString(a))
+						}
+						sh = append(sh, "handler("+strings.Join(args, ",")+")")
+					}
+				}
+				return true
+			})
+		}
+		c.emitShape("shape_"+d.name, d.name, sh, found)
+	}
 }
